@@ -50,6 +50,8 @@ def make_scenario(rnd, counts, nues_choices=None, fault=None, opts=None):
     """Scenario = configuration of the emulator + the AMF's free choices per UE."""
     opts = opts or {}
     mnc_len = opts.get("mnc_len", rnd.choice([2, 3]))
+    if opts.get("mnc"):
+        mnc_len = len(opts["mnc"])
     mcc = "".join(rnd.choice("0123456789") for _ in range(3))
     if opts.get("mcc"):
         mcc = opts["mcc"]
@@ -59,6 +61,8 @@ def make_scenario(rnd, counts, nues_choices=None, fault=None, opts=None):
         # keep the configured digits; cycled with the run index
         dg = lambda: rnd.choice("123456789")
         mnc = ([dg() + mnc[1:], "0" + dg() + mnc[2:], "00" + dg()] if mnc_len == 3 else [mnc, dg() + mnc[1:], "0" + dg()])[opts["det"] % 3]
+    if opts.get("mnc"):
+        mnc = opts["mnc"]           # an explicit MNC wins over the cycled ones
     imsi_len = opts.get("imsi_len", rnd.choice([13, 14, 15]))
     msin_len = imsi_len - 3 - mnc_len
     nreg = counts["reg"]
